@@ -20,10 +20,11 @@ MANIFEST_ENTRY = {
           "finding C13-K1 with witness theorem C13_K1_refuted), a token of an operator type is spelled as the generated "
           "operator table says and no longer spelling is a prefix of the remaining input (C13_longest_match), and the first "
           "line feed of every blank line lies in a Subexpression token unless it belongs to a char/byte list literal or ends "
-          "a line annotation, whatever precedes it (C13_blank_lines_separate, C13_blank_line_separates). Partial: the "
-          "blank-line clause in DESIGN's wording with a hypothesis on the prefix (C13_blank_line_full_statement) and "
-          "maximal-run classification of identifier/number/whitespace tokens are stated or checked by the oracle but not "
-          "proved. The model is tied to the Rust lexer by token-for-token correspondence (type, text, line, column, error "
+          "a line annotation, whatever precedes it (C13_blank_lines_separate, C13_blank_line_separates); in particular if x "
+          "lexes on its own and does not end in a line annotation then x ++ pad ++ LF LF ++ y has a Subexpression token over "
+          "the first line feed for every run pad of spaces/tabs (C13_blank_line_after_trailing_spaces, "
+          "C13_blank_line_full_statement_holds). Not proved: maximal-run classification of identifier/number/whitespace "
+          "tokens (Spec.LexSpec.right_maximal is stated only). The model is tied to the Rust lexer by token-for-token correspondence (type, text, line, column, error "
           "class and position) on all strings up to a length bound over a reduced alphabet, all pairs of operator spellings "
           "and seeded random strings; an independent Python oracle and the extracted Coq spec check the implementation's "
           "tokens directly.",
@@ -368,11 +369,11 @@ def run(tier, seed):
     v.coverage["tables_regenerated"] = sy.get("changed", [])
     v.coverage["theorem_status"] = {
         "full": ["C13_lossless", "C13_no_empty_token", "C13_lex_no_panic", "C13_lex_terminates", "C13_longest_match",
-                 "C13_blank_lines_separate", "C13_blank_line_separates"],
+                 "C13_blank_lines_separate", "C13_blank_line_separates", "C13_blank_line_after_trailing_spaces",
+                 "C13_blank_line_full_statement_holds"],
         "full_outside_known_finding": ["C13_positions_exact (forall s, ~ Known_C13_K1 s -> no CR -> ...)"],
         "refuted_witness": ["C13_K1_refuted (5 FF 6)"],
-        "stated_not_proved": ["C13_blank_line_full_statement (DESIGN.md wording: hypothesis `lex x = Ok` on the prefix)",
-                              "right_maximal (Spec/LexSpec.v): identifier/number/annotation/whitespace tokens are maximal runs"],
+        "stated_not_proved": ["right_maximal (Spec/LexSpec.v): identifier/number/annotation/whitespace tokens are maximal runs"],
         "fixed_in_repo": ["8363728 sticky error", "21813e8 blank line after trailing spaces", "6e3a1f8 '' swallows next char",
                           "ae66e80 NUL after opening quote", "0f8acb2 positions after multi-line literal"],
     }
